@@ -11,7 +11,7 @@ BEDK = 2300         # bed size in grid counts (~58 mm)
 MARGIN = 0.1
 
 
-def gen_path(rnd, regs, arcs=False):
+def gen_path(rnd, regs, arcs=False, homes=False):
     """Abstract tool path on the grid: ('move', kx, ky, kz|None, dek, g) / ('z', kz) / ('retract',) / ('recover',) / ('misc', cmd)."""
     def pt(inside):
         for _ in range(300):
@@ -76,6 +76,13 @@ def gen_path(rnd, regs, arcs=False):
         elif k < 0.88:
             kz = max(4, kz + rnd.choice([-8, 8, 8, 40]))
             path.append(("z", kz))
+        elif k < 0.92 and homes and not retracted and (not regs or depth_in(regs, kx * G, ky * G) < -MARGIN):
+            # re-homing X and Y in the middle of the file (outside every region), whatever modes are in force
+            ax = rnd.choice(["XY", "XY", "X", "Y"])
+            nx, ny = (0 if "X" in ax else kx), (0 if "Y" in ax else ky)
+            if not regs or depth_in(regs, nx * G, ny * G) < -MARGIN:
+                path.append(("home", ax))
+                kx, ky = nx, ny
         else:
             path.append(("misc", rnd.choice(["M106 S255", "M117 hello", "M204 S500", "G4 P10", "M400", "G1 F1800", "M73 P10"])))
     return path
@@ -104,6 +111,10 @@ def render(path, enc):
                 t = "-" + t[2:]
         return t
 
+    def eword(new, old):
+        # with the G90-influences-extruder setting on, E words are offsets while positioning is relative
+        return "E" + num(new - old if (rel and enc.get("g90e")) else new)
+
     def word(ax, target):
         i = "XYZ".index(ax)
         v = (target - cur[i]) if rel else (target - shift[i])
@@ -118,12 +129,17 @@ def render(path, enc):
             unit_in = False
             steps.append(["g", "G21"])
             amap.append(None)
-        if ai == at and kind in ("inch", "relative", "g92"):
+        if ai == at and kind in ("inch", "relative", "g92", "relative-inch"):
             if kind == "inch":
                 unit_in = True
                 steps.append(["g", "G20"])
             elif kind == "relative":
                 rel = True
+                steps.append(["g", "G91"])
+            elif kind == "relative-inch":
+                rel = unit_in = True
+                steps.append(["g", "G20"])
+                amap.append(None)
                 steps.append(["g", "G91"])
             else:
                 shift = list(enc["shift"])
@@ -141,24 +157,29 @@ def render(path, enc):
                 ws.append(word("Z", kz))
             if dek:
                 ek += dek
-                ws.append("E" + num(ek))
+                ws.append(eword(ek, ek - dek))
             steps.append(["g", g + " " + " ".join(ws)])
         elif st[0] == "arc":
             _, ckx, cky, ex, ey, cw, dek = st
             i, j = (ckx + tx) - cur[0], (cky + ty) - cur[1]
             ws = [word("X", ex + tx), word("Y", ey + ty), "I" + num(i), "J" + num(j)]
             ek += dek
-            ws.append("E" + num(ek))
+            ws.append(eword(ek, ek - dek))
             steps.append(["g", ("G2 " if cw else "G3 ") + " ".join(ws)])
+        elif st[0] == "home":
+            for a in st[1]:
+                cur["XYZ".index(a)] = 0
+                shift["XYZ".index(a)] = 0
+            steps.append(["g", "G28 " + " ".join(st[1])])
         elif st[0] == "z":
             steps.append(["g", "G1 " + word("Z", st[1])])
         elif st[0] == "retract":
             pre = ek
             ek -= RET
-            steps.append(["g", "G1 E%s F2400" % num(ek)])
+            steps.append(["g", "G1 %s F2400" % eword(ek, pre)])
         elif st[0] == "recover":
+            steps.append(["g", "G1 %s F2400" % eword(pre, ek)])
             ek = pre
-            steps.append(["g", "G1 E%s F2400" % num(ek)])
         else:
             steps.append(["g", st[1]])
         amap.append(ai)
@@ -183,17 +204,18 @@ class C08(Monitor):
             "step: inches (G20), relative (G91), G92 X/Y/Z re-basing, translation of path and regions by a grid vector; oracle: per "
             "abstract step equal (suppressed?, excluding afterwards, printer position minus translation, pushed filament) and equal "
             "final position; non-trivial = a pair in which an episode opens after the re-encoding point; distinct by digest of the pair")
-    assumptions = ["both runs use the same reference printer model", "G90 does not influence the extruder (E stays absolute)"]
+    assumptions = ["both runs use the same reference printer model"]
 
 
     def gen_case(self, rnd, tier, k):
         regs = [r for r in gen_regions(rnd, rnd.choice([1, 1, 2, 3, 4])) if not (r[0] == "rect" and min(r[1], r[3]) < 0.5)]
         if not regs:
             regs = [["rect", 10.0, 10.0, 25.0, 25.0, "r0"]]
-        kind = rnd.choice(["inch"] * 2 + ["inch-then-mm"] * 2 + ["relative"] * 3 + ["translate"] * 3 + ["g92"])
+        kind = rnd.choice(["inch"] * 2 + ["inch-then-mm"] * 2 + ["relative"] * 3 + ["translate"] * 3 + ["g92"] + ["relative-inch"])
         # arcs only where both encodings sample them identically (same units): the property's quantifier has no arcs, the
         # statement does not exclude them
-        path = gen_path(rnd, regs, arcs=(kind in ("relative", "translate") and rnd.random() < 0.5))
+        path = gen_path(rnd, regs, arcs=(kind in ("relative", "translate") and rnd.random() < 0.5),
+                        homes=(kind in ("inch", "inch-then-mm", "relative", "relative-inch") and rnd.random() < 0.5))
         enc = dict(kind=kind, at=rnd.randrange(1, len(path)), dot=rnd.random() < 0.4)
         if kind == "g92":
             enc["shift"] = [rnd.randint(-2000, 2000), rnd.randint(-2000, 2000), rnd.randint(-100, 100)]
@@ -201,6 +223,8 @@ class C08(Monitor):
         if kind == "translate":
             enc["t"] = (rnd.randint(-300, 4000), rnd.randint(-300, 4000))
             enc["at"] = 0
+        if kind in ("relative", "relative-inch") and rnd.random() < 0.4:
+            enc["g90e"] = True        # both runs with the setting on; only the re-encoded one ever is in relative mode
         return dict(cls=kind, regions=regs, path=[list(p) for p in path], enc=enc)
 
     def check_case(self, case):
@@ -213,8 +237,9 @@ class C08(Monitor):
         s2, m2 = render(path, enc)
         tx, ty = enc.get("t", (0, 0))
         regs2 = translate(regs, tx, ty) if enc["kind"] == "translate" else regs
-        t1 = run_case(dict(settings={}, regions=regs, steps=s1))
-        t2 = run_case(dict(settings={}, regions=regs2, steps=s2))
+        st = dict(g90e=True) if enc.get("g90e") else {}
+        t1 = run_case(dict(settings=dict(st), regions=regs, steps=s1))
+        t2 = run_case(dict(settings=dict(st), regions=regs2, steps=s2))
         common_stats(t1, stats, sets)
         stats["class:" + enc["kind"]] += 1
         v = []
